@@ -207,7 +207,7 @@ def parse_races(logs):
             for line in part.splitlines():
                 ls = line.strip()
                 if ls.startswith("github.com/basecomplextech/spec"):
-                    f = ls.split("(")[0].replace("github.com/basecomplextech/spec", "")
+                    f = re.sub(r"\(\)$", "", ls).replace("github.com/basecomplextech/spec", "")
                     break
             frames.append(f)
         inmod = [f for f in frames if f]
